@@ -189,7 +189,7 @@ def coverage : List Row := [
       status := .notExecuted .legacy_no_constructor "no CertAuthCommandDetails variant maps to it: a CA is deleted by dropping its aggregate (CaManager::delete_ca); only read from older histories" },
   { agg := "Properties", variant := "Init",
       fields := [],
-      status := .notExecuted .startup_only "PropertiesManager::init at the very first start of a daemon on empty storage (upgrades/mod.rs); the in-process krill of the harness is built from KrillRuntime::new, which does not touch the properties" },
+      status := .notExecuted .startup_only "PropertiesManager::init at the very first start of a daemon on empty storage (daemon/start.rs, upgrades/mod.rs); the in-process krill of the harness is built from KrillRuntime::new, which does not touch the properties" },
   { agg := "Properties", variant := "UpgradeTo",
       fields := [("krill_version", "KrillVersion"), ("krill_version.major", "u64"), ("krill_version.minor", "u64"), ("krill_version.patch", "u64"), ("krill_version.release_type", "KrillVersionReleaseType")],
       status := .notExecuted .upgrade_only "PropertiesManager::upgrade_krill_version when a newer binary starts on older data" },
